@@ -271,7 +271,7 @@ impl Env {
             };
             cat.insert(path, (lv, rows));
         }
-        let now = chrono::Utc::now();
+        let now = chrono::Utc::now() + cardinalsin::verif_hooks::clock_offset();
         let mut leases = BTreeMap::new();
         for (id, l) in self.read_leases().await.leases.iter() {
             let st = match l.status {
@@ -313,18 +313,10 @@ impl Env {
         format!("{}@{}", cat, ls.into_iter().map(|x| x.1).collect::<Vec<_>>().join(","))
     }
 
-    /// all leases age by `secs` (object-store backend): the lease file is moved into the past
+    /// the clock every node reads moves forward by `secs` (hook at the wall-clock reads of the
+    /// lease methods, of GC and of BoundedClock): leases age, pending deletions become due
     async fn age_leases(&self, secs: i64) {
-        let p = Path::from_iter([META_PREFIX, "compaction-leases.json"]);
-        if let Ok(r) = self.raw.get(&p).await {
-            let mut ls: CompactionLeases = serde_json::from_slice(&r.bytes().await.unwrap()).unwrap_or_default();
-            for l in ls.leases.values_mut() {
-                l.expires_at -= chrono::Duration::seconds(secs);
-                l.acquired_at -= chrono::Duration::seconds(secs);
-            }
-            let bytes = serde_json::to_vec_pretty(&ls).unwrap();
-            self.raw.put(&p, bytes.into()).await.unwrap();
-        }
+        cardinalsin::verif_hooks::advance_clock_nanos(secs * 1_000_000_000);
     }
 }
 
@@ -448,6 +440,7 @@ async fn drain(ctl: &mut Controller, inc: &mut Incarnation, out: &mut RunOut) ->
 
 async fn run_plan(plan: &Plan) -> RunOut {
     let mut out = RunOut::default();
+    cardinalsin::verif_hooks::set_clock_offset_nanos(0);
     let raw = Arc::new(InMemory::new());
     let hub = Hub::new(raw.clone());
     let local = if plan.local { Some(Arc::new(LocalMetadataClient::new())) } else { None };
@@ -608,7 +601,14 @@ async fn run_plan(plan: &Plan) -> RunOut {
         // scheduled events that come before this modelled request
         if positional {
             if let Some((at, d)) = plan.tick {
-                if !tick_done && at == modelled && !plan.local {
+                // a metadata operation reads the clock right after its GET: a tick between that GET and
+                // the conditional PUT is the same as a tick right after the operation, so in request-level
+                // mode the tick waits until no compactor is parked at a metadata PUT
+                let safe = !plan.raw
+                    || incs.iter().all(|i| {
+                        i.finished || ctl.peek(i.client).map(|r| !(r.verb == "PUT" && r.path.starts_with("metadata"))).unwrap_or(true)
+                    });
+                if !tick_done && modelled >= at && safe {
                     tick_done = true;
                     env.age_leases(d).await;
                     let o = env.observe().await;
@@ -1054,6 +1054,9 @@ fn corpus() -> Vec<(&'static str, Plan)> {
     }
     // K3: the lease of a working compactor expires (l l s job get get = 6 requests in), a second one takes the same chunks
     v.push(("k3-lease-expired-s3", Plan { local: false, chunks: two.clone(), ncomp: 2, tick: Some((8, 301)), script: vec![(1, 2), (0, 6), (1, 100), (0, 100)], ..base.clone() }));
+    v.push(("k3-lease-expired-local", Plan { local: true, chunks: two.clone(), ncomp: 2, tick: Some((8, 301)), script: vec![(1, 2), (0, 6), (1, 100), (0, 100)], ..base.clone() }));
+    v.push(("k3-lease-renewed-local", Plan { local: true, chunks: two.clone(), ncomp: 2, tick: Some((8, 200)), renew: Some(8), script: vec![(1, 2), (0, 6), (1, 100), (0, 100)], ..base.clone() }));
+    v.push(("k1-crash-then-remerge-local", Plan { local: true, chunks: two.clone(), crash: Some(8), tick: Some((10, 301)), restart_cycles: 1, ..base.clone() }));
     // the same with the renewal task firing in time: the second compactor is refused
     v.push(("k3-lease-renewed-s3", Plan { local: false, chunks: two.clone(), ncomp: 2, tick: Some((8, 200)), renew: Some(8), script: vec![(1, 2), (0, 6), (1, 100), (0, 100)], ..base.clone() }));
     // K4 (fixed by 00081bd): an error at create_compaction_job used to leak the renewal task (lease renewed for ever)
@@ -1142,7 +1145,7 @@ fn main() {
             }
             _ => {}
         }
-        if !p.local && rng.chance(1, 4) {
+        if rng.chance(1, 4) {
             p.tick = Some((rng.below(probe_len as u64) as usize, *rng.pick(&[100i64, 250, 301, 700])));
         }
         if !p.raw && rng.chance(1, 6) {
